@@ -22,6 +22,9 @@ What is assumed, and where:
 import OpenFGAVerif.Proofs.IterCache
 import OpenFGAVerif.Proofs.IterCacheV2
 import OpenFGAVerif.Proofs.IterCacheTies
+import OpenFGAVerif.Proofs.SharedIterCancel
+import OpenFGAVerif.Gen.Iter
+import OpenFGAVerif.Gen.SharedCtx
 
 namespace OpenFGAVerif.C09
 open OpenFGAVerif.Model.Iter OpenFGAVerif.Model.IterCache OpenFGAVerif.Proofs.IterCache
@@ -75,6 +78,50 @@ theorem tie_elision :
     "if c.userType != \"\" && c.userType == record.UserObjectType" ∈ Gen.IterCache.cachedAddToBuffer ∧
     "if c.objectType != \"\"" ∈ Gen.IterCache.buildTuple ∧ "if c.objectID != \"\"" ∈ Gen.IterCache.buildTuple ∧
     "if c.relation != \"\"" ∈ Gen.IterCache.buildTuple ∧ "if c.userType != \"\"" ∈ Gen.IterCache.buildTuple := by decide
+
+/-! ## The shared iterator above the cache: a cancelled request cannot reach the shared read path
+
+In the request wrapper the cached datastore sits under the shared iterator (combined → shared → cached → bounded).  One
+shared iterator serves every request with the same query; the answers stay the uncached ones only if no request's context
+reaches the shared inner iterator (a cancelled requester would otherwise be recorded as the shared, sticky error and every
+other request would be served a truncated prefix followed by `context.Canceled`, which the resolvers read as the end). -/
+
+/-- every call the shared iterator makes on the shared inner iterator carries a background / detached context or none
+(fact group `SharedCtx`: the context argument of each such call, parameters resolved through all their call sites) -/
+theorem tie_shared_ctx_background :
+    Gen.SharedCtx.iterCalls.all (fun c => c.2.2.2 == "background" || c.2.2.2 == "detached" || c.2.2.2 == "noctx") = true ∧
+    Gen.SharedCtx.iterCalls.any (fun c => c.1 == "sharedIterator.fetchMore" && c.2.2.2 == "background") = true ∧
+    Gen.SharedCtx.iterCalls.any (fun c => c.1 == "iteratorReader.Read" && c.2.1 == "ir.Next" && c.2.2.2 == "background") = true := by
+  decide
+
+/-- the exact call list -/
+theorem tie_shared_ctx_calls :
+    Gen.SharedCtx.iterCalls = [
+      ("iteratorReader.Read", "ir.Next", "ctx", "background"),
+      ("sharedIterator.fetchMore", "s.ir.Read", "context.Background()", "background"),
+      ("sharedIterator.Stop", "s.ir.Stop", "-", "noctx"),
+      ("sharedIterator.IsOrdered", "s.ir.IsOrdered", "-", "noctx")] := by decide
+
+/-- **cancel_isolated** (proved in `Proofs/SharedIterCancel.lean`, stated in `Props/C23` as `C23.cancel_isolated`): under
+that background context, for every underlying sequence, every interleaving of clone actions and every cancellation point
+of every call, a clone observes exactly what it observes when another clone `j` is never cancelled. -/
+theorem shared_cancel_isolated {β : Type} [DecidableEq β] (it : SIter β) (h0 : it.stops = 0) (j i : Nat) (hij : i ≠ j)
+    (acts : List OpenFGAVerif.Model.SharedIterCancel.CAct) :
+    OpenFGAVerif.Model.SharedIterCancel.obsOf i acts
+        (OpenFGAVerif.Model.SharedIterCancel.runC Gen.Iter.sharedBufferSize false acts
+          (OpenFGAVerif.Model.SharedIter.start it)).1 =
+      OpenFGAVerif.Model.SharedIterCancel.obsOf i (acts.map (OpenFGAVerif.Model.SharedIterCancel.uncancel j))
+        (OpenFGAVerif.Model.SharedIterCancel.runC Gen.Iter.sharedBufferSize false
+          (acts.map (OpenFGAVerif.Model.SharedIterCancel.uncancel j)) (OpenFGAVerif.Model.SharedIter.start it)).1 :=
+  OpenFGAVerif.Proofs.SharedCancel.cancel_isolated_model Gen.Iter.sharedBufferSize (by decide) it h0 j i hij acts
+
+/-- … and it is the background context that makes it true (variant model reading with the requester's context) -/
+theorem shared_cancel_poisons_with_requester_ctx :
+    OpenFGAVerif.Model.SharedIterCancel.seenBy 1 OpenFGAVerif.Proofs.SharedCancel.witnessActs
+      (OpenFGAVerif.Model.SharedIterCancel.runC 2 true OpenFGAVerif.Proofs.SharedCancel.witnessActs
+        (OpenFGAVerif.Model.SharedIter.start OpenFGAVerif.Proofs.SharedCancel.witnessIter)).1
+      = [.ok 0, .ok 1, .ok 2, Res.cancelled, Res.cancelled, Res.cancelled] :=
+  OpenFGAVerif.Proofs.SharedCancel.requester_ctx_truncates.1
 
 /-! ## The cached iterator -/
 
